@@ -570,84 +570,25 @@ pub fn c14_round(rng: &mut Rng, round: u64, st: &mut Stats, progress: &std::sync
     CaseOutcome::Ok
 }
 
+/// One round as a worker-process case.
+pub fn c14_case(rng: &mut Rng, i: u64, st: &mut Stats) -> CaseOutcome {
+    let progress = std::sync::atomic::AtomicU64::new(0);
+    c14_round(rng, i, st, &progress)
+}
+
 pub fn c14(tier: Tier) -> i32 {
-    use std::sync::atomic::{AtomicBool, AtomicU64, Ordering};
     let ctx = Ctx::new("C14", tier, "exploration");
-    let rounds = ctx.scale(300, 20_000);
-    let progress = AtomicU64::new(0);
-    let done = AtomicBool::new(false);
-    let mut res = RunResult::new();
-    let mut deadlock: Option<String> = None;
-    std::thread::scope(|s| {
-        // watchdog: logical deadlock criterion (no progress for 60 s and every task blocked in futex)
-        let wd = s.spawn(|| {
-            let mut last = 0u64;
-            let mut stalled = 0u32;
-            loop {
-                for _ in 0..10 {
-                    if done.load(Ordering::Relaxed) {
-                        return None;
-                    }
-                    std::thread::sleep(std::time::Duration::from_millis(100));
-                }
-                let now = progress.load(Ordering::Relaxed);
-                if now == last {
-                    stalled += 1;
-                } else {
-                    stalled = 0;
-                    last = now;
-                }
-                if stalled >= 60 {
-                    // inspect the tasks of this process
-                    let mut blocked = 0;
-                    let mut total = 0;
-                    if let Ok(rd) = std::fs::read_dir("/proc/self/task") {
-                        for e in rd.flatten() {
-                            total += 1;
-                            let sys = std::fs::read_to_string(e.path().join("syscall")).unwrap_or_default();
-                            if sys.starts_with("202 ") || sys.starts_with("449 ") {
-                                blocked += 1;
-                            }
-                        }
-                    }
-                    return Some((blocked, total));
-                }
-            }
-        });
-        let mut rng_round = 0u64;
-        while rng_round < rounds {
-            let mut st = Stats::default();
-            let mut rng = Rng::for_case(ctx.seed, 1, rng_round);
-            let out = std::panic::catch_unwind(std::panic::AssertUnwindSafe(|| c14_round(&mut rng, rng_round, &mut st, &progress)));
-            match out {
-                Ok(CaseOutcome::Ok) => st.evaluations += 1,
-                Ok(CaseOutcome::Skipped) => st.skipped += 1,
-                Ok(CaseOutcome::Violated(v)) => {
-                    st.evaluations += 1;
-                    res.violations.push(v);
-                }
-                Err(_) => res.harness_errors.push(format!("harness panic in round {}", rng_round)),
-            }
-            res.stats.merge(st);
-            if !res.violations.is_empty() || !res.harness_errors.is_empty() {
-                break;
-            }
-            rng_round += 1;
-        }
-        done.store(true, Ordering::Relaxed);
-        if let Ok(Some((blocked, total))) = wd.join() {
-            deadlock = Some(format!("{} of {} tasks blocked in futex wait", blocked, total));
-        }
-    });
-    if let Some(d) = deadlock {
-        res.violations.push(Violation::new(format!("no operation completed for 60 s: {}", d), json!({"kind": "c14"})));
-    }
+    let rounds = ctx.scale(320, 20_000);
+    // Rounds run in worker processes: memory corruption caused by a race kills a worker, which is
+    // observed and attributed (signal + round), and a worker whose tasks are all blocked in a futex
+    // wait for 120 s (normal: about a second) is reported as a deadlock.
+    let mut res = run_cases_subprocess_with_timeout(&ctx, 1, rounds, 10, Some(120));
     // Send + Sync probe result is reported by the driver (it is a build-time observation)
     if let Ok(p) = std::env::var("VERIF_SEND_SYNC_PROBE") {
         res.stats.add(&format!("send_sync_probe_{}", p), 1);
     }
     let report = Report::new(
-        "rounds of 2-16 threads started at a barrier; each thread runs 10-40 operations drawn from: build() of hot keys shared by all threads, of cold keys unique to the round and of failing keys; build_uncached(); complete scans on one shared Scanner; scans on the shared Scanner interrupted by a yield; with yields and 50 us sleeps injected between operations. Every result is compared with a table computed single-threaded with build_uncached() beforehand (token streams on probe inputs in every mode; Ok/Err). Hook H3 records the order in which the cache lock was taken: distinct_nontrivial counts the distinct shapes of 8 consecutive lock acquisitions that involve at least two threads (thread identities renamed in order of first occurrence, with the hit/miss pattern). A watchdog reports a deadlock only on a logical criterion (no operation completed for 60 s). Scanner: Send + Sync is a compile-time probe built by the driver (src/bin/probe_send_sync.rs). Thorough adds ThreadSanitizer and Miri runs of the same workload.",
+        "rounds of 2-16 threads started at a barrier; each thread runs 10-40 operations drawn from: build() of hot keys shared by all threads, of cold keys unique to the round and of failing keys; build_uncached(); complete scans on one shared Scanner; scans on the shared Scanner interrupted by a yield; with yields and 50 us sleeps injected between operations. Every result is compared with a table computed single-threaded with build_uncached() beforehand (token streams on probe inputs in every mode; Ok/Err). Hook H3 records the order in which the cache lock was taken: distinct_nontrivial counts the distinct shapes of 8 consecutive lock acquisitions that involve at least two threads (thread identities renamed in order of first occurrence, with the hit/miss pattern). Rounds run in worker processes of 10 rounds each: a worker killed by a signal (memory corruption) is attributed to the round it was running, and a worker that completes nothing for 120 s with all its tasks blocked in a futex wait is reported as a deadlock (otherwise a slow worker is inconclusive). Scanner: Send + Sync is a compile-time probe built by the driver (src/bin/probe_send_sync.rs). Thorough adds ThreadSanitizer and Miri runs of the same workload.",
     )
     .floor("rounds", 200)
     .floor("concurrent_ops", 20_000)
